@@ -178,6 +178,14 @@ fn planted(p: &H, k: u64) -> (H, &'static str) {
     }
 }
 
+fn edited(seed: u64, idx: u64) -> Option<(H, String)> {
+    let mut r = Rng::for_case(seed, 4, idx);
+    let p = crate::gen_prog::gen_program_without_rec_families(&mut r, if idx % 3 == 0 { Mode::Inferred } else { Mode::Explicit });
+    let (m, _) = crate::edit::edits(&p.h, &mut r)?;
+    let src = print(&m, &Style::varied(&mut r), idx).text;
+    Some((m, src))
+}
+
 impl Prop for C02P {
     fn id(&self) -> &'static str {
         "C02"
@@ -190,8 +198,9 @@ impl Prop for C02P {
                 sec("explicit-programs", tier.pick(36_000, 250_000)),
                 sec("inferred-programs", tier.pick(18_000, 120_000)),
                 sec("planted-effects", tier.pick(10_000, 80_000)),
+                sec("edited-programs", tier.pick(30_000, 250_000)),
             ],
-            "generated explicit and inferred programs (integers beyond 64 and 200 bits, recursion, mutual recursion, groups of 1-5 definitions, higher-order and polymorphic functions) run by gram and by an environment-based call-by-value reference interpreter on the source AST; every arithmetic and comparison operator on every pair of 27 operands (0, +-1..3, +-7, +-2^31, 2^32-1, +-(2^63-1), +-2^63, -(2^63+1), +-2^64, +-(2^64+1), +-2^127, 2^127-1, -2^128, +-(2^200+12345)); int programs wrapped so that a division by zero sits in an evaluated or an unevaluated position (8 placements); gram's step budget is 20 x reference reductions + 200; non-trivial = distinct program on which both sides produced an outcome that was compared",
+            "generated explicit and inferred programs (integers beyond 64 and 200 bits, recursion, mutual recursion, groups of 1-5 definitions, higher-order and polymorphic functions) run by gram and by an environment-based call-by-value reference interpreter on the source AST; every arithmetic and comparison operator on every pair of 27 operands (0, +-1..3, +-7, +-2^31, 2^32-1, +-(2^63-1), +-2^63, -(2^63+1), +-2^64, +-(2^64+1), +-2^127, 2^127-1, -2^128, +-(2^200+12345)); int programs wrapped so that a division by zero sits in an evaluated or an unevaluated position (8 placements); programs after 1-3 scope-aware edits (another variable in scope, neighbouring literals, operators of the same class, mirrored comparisons, swapped branches, subterms named in local groups of one or two definitions, definitions and applied binders put around a node), whatever the checker still accepts; gram's step budget is 20 x reference reductions + 200; non-trivial = distinct program on which both sides produced an outcome that was compared",
         );
         p.assumptions = vec![
             "R-eval (harness/src/reval.rs) is the semantics of DESIGN.md A.7; truncating division is derived from unsigned magnitudes".into(),
@@ -232,6 +241,10 @@ impl Prop for C02P {
                 let src = print(&p.h, &Style::varied(&mut r), idx).text;
                 check_program(ctx, &p.h, &src, if explicit { "explicit" } else { "inferred" });
             }
+            "edited-programs" => {
+                let Some((m, src)) = edited(ctx.seed, idx) else { return };
+                check_program(ctx, &m, &src, "edited");
+            }
             "planted-effects" => {
                 let mut r = Rng::for_case(ctx.seed, 3, idx);
                 let p = gen_program_of(&mut r, Mode::Explicit, &GT::Int);
@@ -245,6 +258,7 @@ impl Prop for C02P {
     }
     fn describe(&self, _tier: Tier, seed: u64, section: &str, idx: u64) -> String {
         match section {
+            "edited-programs" => edited(seed, idx).map_or(String::new(), |x| x.1),
             "explicit-programs" | "inferred-programs" => {
                 let explicit = section == "explicit-programs";
                 let mut r = Rng::for_case(seed, if explicit { 1 } else { 2 }, idx);
